@@ -325,3 +325,29 @@ Proof.
   - destruct H as [lb' H]. rewrite H. cbn. split; discriminate.
   - rewrite H. cbn. split; intros E; inversion E; reflexivity.
 Qed.
+
+(* ------------------------------------------------------------------ WalkLocal paths resolve segment by segment *)
+Lemma get_local_app p : forall n q, get_local n (p ++ q) = bind (get_local n p) (fun v => get_local v q).
+Proof.
+  induction p as [|sg p IH]; intros; [reflexivity|].
+  cbn. destruct (step n sg) as [v|e]; cbn; [apply IH|reflexivity].
+Qed.
+
+Theorem walk_local_paths root :
+  keys_ok root = true ->
+  Forall (fun pv => get_local root (fst pv) = Ok (snd pv)) (walk_local_all root).
+Proof.
+  intros Hk. unfold walk_local_all.
+  assert (H : forall f P n, get_local root P = Ok n -> keys_ok n = true ->
+                            Forall (fun pv => get_local root (fst pv) = Ok (snd pv)) (walk_local f P n)).
+  { induction f as [|f IH]; intros P n Hg Hn; [constructor|].
+    cbn [walk_local]. constructor; [exact Hg|].
+    apply Forall_forall. intros pv Hin. apply in_flat_map in Hin. destruct Hin as ([ps x] & Hkid & Hin).
+    assert (Hl : lookup_seg n ps = Some x).
+    { apply (children_lookup repaired n (SAll (SMatch None)) ps x Hn). exact Hkid. }
+    pose proof (lookup_keys_ok n ps x Hn Hl) as Hx. apply step_ok_iff in Hl.
+    assert (Hg' : get_local root (P ++ [ps]) = Ok x).
+    { rewrite get_local_app, Hg. cbn. rewrite Hl. reflexivity. }
+    specialize (IH (P ++ [ps]) x Hg' Hx). rewrite Forall_forall in IH. apply IH. exact Hin. }
+  apply H; [reflexivity|exact Hk].
+Qed.
